@@ -240,6 +240,11 @@ func init() {
 		mix:     mix{get: 35, set: 22, setTTL: 12, del: 10, getTTL: 6, iter: 3, wait: 10, clear: 1, yield: 2},
 		capMode: []int{CapAll}, bufSmall: 500, collide: 0, strKeys: 200,
 		pClockLo: 0, pClockHi: 150, ttlNeg: 60, metricsPM: 500, epilogue: "std", quiescePM: 20, starveAppl: 300})
+	// C07 early rule: one client (so the reference model applies), TTL heavy, very few keys, sweeps racing re-writes
+	add(&profile{name: "singlettl", clientsLo: 1, clientsHi: 1, opsLo: 10, opsHi: 40, keysLo: 1, keysHi: 3,
+		mix:     mix{get: 35, set: 8, setTTL: 30, del: 5, getTTL: 8, iter: 2, wait: 12, yield: 6},
+		capMode: []int{CapAll}, bufSmall: 400, collide: 0, strKeys: 100,
+		pClockLo: 80, pClockHi: 350, ttlNeg: 20, metricsPM: 300, epilogue: "std", quiescePM: 10, starveAppl: 300})
 	// C07/C14: TTL heavy, few keys, sweeps
 	add(&profile{name: "ttl", clientsLo: 1, clientsHi: 3, opsLo: 5, opsHi: 25, keysLo: 1, keysHi: 4,
 		mix:     mix{get: 30, set: 10, setTTL: 35, del: 8, getTTL: 8, iter: 3, wait: 4, yield: 6, clear: 1},
